@@ -769,6 +769,11 @@ static JanetAssembleResult janet_asm1(JanetAssembler *parent, Janet source, int 
             ss.death_pc = janet_unwrap_integer(tup[1]);
             ss.slot_index = janet_unwrap_integer(tup[2]);
             ss.symbol = janet_unwrap_symbol(tup[3]);
+            /* A named local can live in a slot that no instruction mentions */
+            if (ss.birth_pc != UINT32_MAX && ss.slot_index < INT32_MAX &&
+                    (int32_t) ss.slot_index >= def->slotcount) {
+                def->slotcount = (int32_t) ss.slot_index + 1;
+            }
             def->symbolmap[i] = ss;
         }
     }
